@@ -9,6 +9,7 @@ import (
 	"errors"
 	"fmt"
 	"os"
+	"strings"
 	"sync"
 	"sync/atomic"
 	"time"
@@ -122,6 +123,9 @@ type Hooks struct {
 	After  func(*Event)
 	Log    []*Event
 	Keep   bool
+	// Streams: also deliver lease keep-alive round trips (method "LeaseKeepAlive": Before runs on the sending
+	// goroutine before the request is sent, After once the response was received or the receive failed).
+	Streams bool
 }
 
 // TakeLog returns and clears the log.
@@ -131,6 +135,13 @@ func (h *Hooks) TakeLog() []*Event {
 	l := h.Log
 	h.Log = nil
 	return l
+}
+
+// SetStreams switches the delivery of lease keep-alive round trips on or off.
+func (h *Hooks) SetStreams(on bool) {
+	h.mu.Lock()
+	h.Streams = on
+	h.mu.Unlock()
 }
 
 // Set replaces the hook functions.
@@ -222,11 +233,86 @@ func (h *Hooks) interceptor() grpc.UnaryClientInterceptor {
 	}
 }
 
+// keepAliveStream wraps the LeaseKeepAlive bidi stream of a client: one Event per request/response pair.
+type keepAliveStream struct {
+	grpc.ClientStream
+	h   *Hooks
+	mu  sync.Mutex
+	evs []*Event // sent, response not yet seen
+}
+
+func (s *keepAliveStream) SendMsg(m interface{}) error {
+	h := s.h
+	h.mu.Lock()
+	on, before := h.Streams, h.Before
+	h.seq++
+	ev := &Event{Seq: h.seq, Method: "LeaseKeepAlive", Req: m}
+	h.mu.Unlock()
+	if !on {
+		return s.ClientStream.SendMsg(m)
+	}
+	if before != nil {
+		ev.Action = before(ev)
+	}
+	if ev.Action == FailBefore {
+		ev.Err = ErrInjected
+		h.mu.Lock()
+		after := h.After
+		h.mu.Unlock()
+		if after != nil {
+			after(ev)
+		}
+		return ErrInjected
+	}
+	s.mu.Lock()
+	s.evs = append(s.evs, ev)
+	s.mu.Unlock()
+	return s.ClientStream.SendMsg(m)
+}
+
+func (s *keepAliveStream) RecvMsg(m interface{}) error {
+	err := s.ClientStream.RecvMsg(m)
+	s.mu.Lock()
+	var ev *Event
+	if len(s.evs) > 0 {
+		ev = s.evs[0]
+		s.evs = s.evs[1:]
+	}
+	s.mu.Unlock()
+	if ev == nil {
+		return err
+	}
+	if err == nil {
+		ev.Applied, ev.Resp = true, m
+		if ev.Action == LostAck {
+			err = ErrInjected
+		}
+	}
+	ev.Err = err
+	s.h.mu.Lock()
+	after := s.h.After
+	s.h.mu.Unlock()
+	if after != nil {
+		after(ev)
+	}
+	return err
+}
+
+func (h *Hooks) streamInterceptor() grpc.StreamClientInterceptor {
+	return func(ctx context.Context, desc *grpc.StreamDesc, cc *grpc.ClientConn, method string, streamer grpc.Streamer, opts ...grpc.CallOption) (grpc.ClientStream, error) {
+		cs, err := streamer(ctx, desc, cc, method, opts...)
+		if err != nil || !strings.HasSuffix(method, "/LeaseKeepAlive") {
+			return cs, err
+		}
+		return &keepAliveStream{ClientStream: cs, h: h}, nil
+	}
+}
+
 // NewClient creates a client whose unary RPCs pass through hooks.
 func (f *Fixture) NewClient(h *Hooks) (*clientv3.Client, error) {
 	cfg := clientv3.Config{Endpoints: []string{f.Endpoint}, DialTimeout: 5 * time.Second}
 	if h != nil {
-		cfg.DialOptions = []grpc.DialOption{grpc.WithChainUnaryInterceptor(h.interceptor())}
+		cfg.DialOptions = []grpc.DialOption{grpc.WithChainUnaryInterceptor(h.interceptor()), grpc.WithChainStreamInterceptor(h.streamInterceptor())}
 	}
 	return clientv3.New(cfg)
 }
